@@ -41,7 +41,7 @@ def gen_alts(rng, names, depth=0, templates=()):
     return ' | '.join(gen_seq(rng, names, depth, templates) for _ in range(rng.choice([1, 1, 2])))
 
 
-def gen_grammar(rng, newlines=False):
+def gen_grammar(rng, newlines=False, imports=False):
     names = ['start'] + rng.sample(['r1', '_r2', 'r3', '_r4'], rng.randint(1, 3))
     templates = ['tp'] if rng.random() < 0.25 else []
     lines = []
@@ -56,6 +56,11 @@ def gen_grammar(rng, newlines=False):
             alts.append(s)
         pr = '.%d' % rng.randint(1, 2) if rng.random() < 0.1 else ''
         lines.append('%s%s%s: %s' % (mod, n, pr, '\n   | '.join(alts)))
+    if imports and rng.random() < 0.1:
+        # rules imported from a module file (with filtered tokens and private dependencies)
+        imp = rng.choice(['mrule', 'mopt', 'mrule'])
+        lines.insert(0, '%%import .shapemod.%s' % imp)
+        lines[1] = lines[1] + '\n   | %s %s' % (imp, rng.choice(['', 'A', '"y"']))
     if templates:
         lines.append('%stp{x}: %s' % (rng.choice(['', '?', '!']), rng.choice(['x "," x', 'x+', '"<" x ">"', 'x [B]', '(x | C)~1..2', '[x] "<" [B]', 'x ["," x]'])))
     for k, v in TERMS.items(): lines.append('%s: %s' % (k, v))
@@ -121,7 +126,10 @@ def to_forest(raw, p, maybe_placeholders):
             ei = r.options.empty_indices if maybe_placeholders else None
             markers = [bool(b) for b in ei] if ei else [False] * len(r.expansion)
             kids = [conv(c, s) for c, s in zip(x.children, r.expansion)]
-            return {'s': sym_info(sym), 'r': {'name': idx, 'alias': idx if r.alias else None, 'expand1': bool(r.options.expand1), 'keepAll': bool(r.options.keep_all_tokens), 'markers': markers}, 'kids': kids}
+            # keep_all_tokens: the rule's own `!` (as compiled) or the *global option* — the option is read from the Lark instance, not from the
+            # compiled rule, so that a rule the option was not handed down to (an imported one) is still expected to keep its tokens
+            keep_all = bool(r.options.keep_all_tokens) or bool(p.options.keep_all_tokens)
+            return {'s': sym_info(sym), 'r': {'name': idx, 'alias': idx if r.alias else None, 'expand1': bool(r.options.expand1), 'keepAll': keep_all, 'markers': markers}, 'kids': kids}
         assert isinstance(x, Token), type(x)
         toks.append(x)
         return {'s': sym_info(sym), 'ty': len(toks) - 1}
@@ -188,7 +196,25 @@ ENGINES = [('earley', 'dynamic'), ('earley', 'basic'), ('earley', 'dynamic_compl
 EBUILD = (4, 3)    # seconds: construction, parse
 
 
+# (its terminals and literals are spelled differently from the main grammar's: two terminals with one pattern would collide in the basic lexer)
+SHAPEMOD = 'mrule: "p" MA _mdep "q" | _MU MB\n_mdep: MB "p"? | \n?mopt: MA | "p" mrule\nMA: "m"\nMB: "n"\n_MU: "w"\n'
+
+
 def _shape_case(args):
+    """(a grammar that says `%import .shapemod.…` is loaded next to a module file holding SHAPEMOD: imported rules with filtered tokens and dependencies)"""
+    g = args[0]
+    if '%import .shapemod' not in g:
+        return _shape_case_(args, {})
+    import tempfile, shutil, os
+    d = tempfile.mkdtemp(prefix='larkverif_shape_')
+    try:
+        open(os.path.join(d, 'shapemod.lark'), 'w').write(SHAPEMOD)
+        return _shape_case_(args, {'source_path': os.path.join(d, 'main.lark')})
+    finally:
+        shutil.rmtree(d, ignore_errors=True)
+
+
+def _shape_case_(args, extra):
     g, seed, ntexts, newlines = args
     from lark import Lark, Tree
     from lark.exceptions import GrammarError, UnexpectedInput, ParseError, LarkError
@@ -198,7 +224,7 @@ def _shape_case(args):
     rec = {'grammar': g, 'opts': opts, 'runs': [], 'nobuild': []}
     try:
         with guarded(EBUILD[0]):
-            pe = Lark(g, parser='earley', ambiguity='explicit', **opts)
+            pe = Lark(g, parser='earley', ambiguity='explicit', **opts, **extra)
     except GrammarError as e:
         rec['gerr'] = str(e)[:120]
         return rec
@@ -209,7 +235,7 @@ def _shape_case(args):
     for parser, lexer in ENGINES:
         try:
             with guarded(EBUILD[0]):
-                engines[(parser, lexer)] = Lark(g, parser=parser, lexer=lexer, **opts)
+                engines[(parser, lexer)] = Lark(g, parser=parser, lexer=lexer, **opts, **extra)
         except (GrammarError, LarkError, Timeout) as e:
             rec['nobuild'].append([parser, lexer, type(e).__name__])
     texts = []
@@ -296,7 +322,7 @@ def shape_stream(ctx, salt, n_quick, n_thorough, ntexts=4, newlines=False, posit
     rng = random.Random(ctx['seed'] * 1000003 + salt)
     N = tier_scale(ctx['tier'], n_quick, n_thorough) * (3 if ctx['deepen'] else 1)
     jobs = [(g, k, ntexts, newlines) for g in corpus for k in range(4)]      # hand-written shapes first (4 option draws each)
-    jobs += [(gen_grammar(rng, newlines), rng.randrange(1 << 30), ntexts, newlines) for _ in range(N)]
+    jobs += [(gen_grammar(rng, newlines, imports=True), rng.randrange(1 << 30), ntexts, newlines) for _ in range(N)]
     outs = pmap(_shape_case, jobs, chunksize=2)
     cases, where = [], []
     for ji, (st, rec) in enumerate(outs):
